@@ -53,8 +53,8 @@ def gen_cases(tier, seed):
         ntot = sum(bases.nfunc(s) for s in shells)
         T, tcls = bases.rand_transform(rng, ntot, "none" if i % 3 else None)
         norb = ntot if T is None else len(T)
-        dm, dcls = bases.rand_sym(rng, norb, ["psd", "indef", "psd-lowrank", "indef", "diag", "psd", "diag-indef", "idempotent", "blockdiag", "diag-indef"][i % 10] if i % 17 else "zero")
-        if i % 5 == 3 and dcls in ("dm:indef", "dm:diag-indef", "dm:blockdiag"):
+        dm, dcls = bases.rand_sym(rng, norb, ["psd", "indef", "psd-lowrank", "indef", "diag", "psd", "diag-indef", "idempotent", "blockdiag", "diag-indef", "hollow"][i % 11] if i % 17 else "zero")
+        if i % 5 == 3 and dcls in ("dm:indef", "dm:diag-indef", "dm:blockdiag", "dm:hollow"):
             # a density matrix of tiny norm (a difference of two nearly equal densities): its negative values lie below the
             # DEFAULT threshold 1e-8 in magnitude, so an explicit threshold of 0 (or of |v|/2) must still raise
             f_ = 10.0 ** -float(rng.uniform(8.3, 12.0))
@@ -268,6 +268,15 @@ def run_case(case):
                         viols.append(cm.viol("%s raised %s for a positive semi-definite density matrix at the default threshold" % (name, out.type), name + "_psd_raise"))
                 elif isinstance(out, np.ndarray) and out.size and float(out.min()) < 0:
                     viols.append(cm.viol("%s returned a negative value %.3e for a PSD density matrix" % (name, out.min()), name + "_psd_negative"))
+                # a value of exactly 0 (zero or diagonal density matrix, nodal plane, underflow) is not negative: if the smallest
+                # positive threshold is accepted (no value below -1e-300), an explicit threshold of 0 must be accepted as well
+                tiny = cm.call(fn, dm, B(), pts, threshold=1e-300, **extra, **kw)
+                if isinstance(tiny, np.ndarray):
+                    zero = cm.call(fn, dm, B(), pts, threshold=0.0, **extra, **kw)
+                    evals[0] += 1
+                    if isinstance(zero, cm.Raised):
+                        viols.append(cm.viol("%s raised %s at threshold 0 although no value is negative (smallest value %.3e, threshold 1e-300 is accepted)" % (name, zero.type, float(tiny.min()) if tiny.size else 0.0),
+                                             name + "_threshold_zero_raise"))
     nontrivial = "dm:zero" not in case["classes"] and any(s["l"] >= 1 for s in shells) and any(sum(o) >= 1 for o in case["orders"])
     return {"evals": evals[0], "nontrivial": bool(nontrivial), "classes": case.get("classes", []) + ["rep:" + rkind], "errs": errs, "violations": viols}
 
